@@ -5,4 +5,4 @@ CONSTANTS
   Conts <- FConts
 SPECIFICATION Spec
 CHECK_DEADLOCK FALSE
-INVARIANTS FilterSound ConcatLen
+INVARIANTS FilterSound ConcatLen DetachListSound
